@@ -1013,419 +1013,428 @@ def run(repo, chk):
         raise ExtractError("run_sim: change test compares the result of changes_made(): %s" % unparse(g.node_ast(T)))
 
     # ---------------------------------------------------------------- R-C05-1 re-solve discipline
-    for tgt_name, tgts in (("save_results", saves), ("update_network_previous_values", upd), ("the time advance", adv)):
-        w = g.can_reach_avoiding(post[0], tgts, [T], drop_back=True)
-        chk.expect(w is None, "R-C05-1", "%s is reached only after the post-solve change test" % tgt_name, loc(rs), found=g.path_text(w) if w else None)
+    with chk.part("R-C05-1 re-solve discipline"):
+        for tgt_name, tgts in (("save_results", saves), ("update_network_previous_values", upd), ("the time advance", adv)):
+            w = g.can_reach_avoiding(post[0], tgts, [T], drop_back=True)
+            chk.expect(w is None, "R-C05-1", "%s is reached only after the post-solve change test" % tgt_name, loc(rs), found=g.path_text(w) if w else None)
+            st = g.succ_on(T, T_pol)
+            w = g.can_reach_avoiding(st[0], tgts, [], drop_back=True) if st else None
+            chk.expect(bool(st) and w is None, "R-C05-1", "when a post-solve control changed something, %s is not reached in this iteration" % tgt_name, loc(rs, g.node_ast(T)),
+                       "no step may be accepted while a post-solve control still wants to change a link", found=g.path_text(w) if w else None)
         st = g.succ_on(T, T_pol)
-        w = g.can_reach_avoiding(st[0], tgts, [], drop_back=True) if st else None
-        chk.expect(bool(st) and w is None, "R-C05-1", "when a post-solve control changed something, %s is not reached in this iteration" % tgt_name, loc(rs, g.node_ast(T)),
-                   "no step may be accepted while a post-solve control still wants to change a link", found=g.path_text(w) if w else None)
-    st = g.succ_on(T, T_pol)
-    umc = g.calling("update_model_for_controls")
+        umc = g.calling("update_model_for_controls")
 
-    # the trial counter: a local that every re-solve path increments and that some test compares (the bound)
-    def incremented(node):
-        if isinstance(node, ast.AugAssign) and isinstance(node.op, ast.Add) and isinstance(node.target, ast.Name):
-            return node.target.id
-        if isinstance(node, ast.Assign) and len(node.targets) == 1 and isinstance(node.targets[0], ast.Name) and isinstance(node.value, ast.BinOp) \
-                and isinstance(node.value.op, ast.Add) and node.targets[0].id in (unparse(node.value.left), unparse(node.value.right)):
-            return node.targets[0].id
-        return None
-    counters = {}
-    for i in g.nodes_where(lambda node, d: d["kind"] == "stmt" and incremented(node) is not None):
-        counters.setdefault(incremented(g.node_ast(i)), []).append(i)
-    compared = set()
-    for t in g.nodes_where(lambda node, d: d["kind"] == "test"):
-        for c in ast.walk(g.node_ast(t)):
-            if isinstance(c, ast.Compare):
-                compared |= {x.id for x in ast.walk(c) if isinstance(x, ast.Name)}
-    tinc, tinc_name = [], None
-    for v, nodes in sorted(counters.items()):
-        if v in compared and st and g.can_reach_avoiding(st[0], [head], nodes, drop_back=False) is None:
-            tinc, tinc_name = nodes, v
-            break
-    if not tinc:
-        # report against the counter candidates that exist (so that the witness path is shown)
+        # the trial counter: a local that every re-solve path increments and that some test compares (the bound)
+        def incremented(node):
+            if isinstance(node, ast.AugAssign) and isinstance(node.op, ast.Add) and isinstance(node.target, ast.Name):
+                return node.target.id
+            if isinstance(node, ast.Assign) and len(node.targets) == 1 and isinstance(node.targets[0], ast.Name) and isinstance(node.value, ast.BinOp) \
+                    and isinstance(node.value.op, ast.Add) and node.targets[0].id in (unparse(node.value.left), unparse(node.value.right)):
+                return node.targets[0].id
+            return None
+        counters = {}
+        for i in g.nodes_where(lambda node, d: d["kind"] == "stmt" and incremented(node) is not None):
+            counters.setdefault(incremented(g.node_ast(i)), []).append(i)
+        compared = set()
+        for t in g.nodes_where(lambda node, d: d["kind"] == "test"):
+            for c in ast.walk(g.node_ast(t)):
+                if isinstance(c, ast.Compare):
+                    compared |= {x.id for x in ast.walk(c) if isinstance(x, ast.Name)}
+        tinc, tinc_name = [], None
         for v, nodes in sorted(counters.items()):
-            if v in compared:
+            if v in compared and st and g.can_reach_avoiding(st[0], [head], nodes, drop_back=False) is None:
                 tinc, tinc_name = nodes, v
+                break
+        if not tinc:
+            # report against the counter candidates that exist (so that the witness path is shown)
+            for v, nodes in sorted(counters.items()):
+                if v in compared:
+                    tinc, tinc_name = nodes, v
 
-    # the flag that suppresses the pre-solve phase (next time step + pre-solve controls) of the next iteration: the local whose truth
-    # value guards the pre-solve call; on the re-solve path it must be given the value that skips that phase
-    pre = g.calling("_compute_next_timestep_and_run_presolve_controls_and_rules")
-    def flag_sets(name, value):
-        return g.nodes_where(lambda node, d: isinstance(node, ast.Assign) and any(isinstance(t_, ast.Name) and t_.id == name for t_ in node.targets)
-                             and isinstance(const(node.value), bool) and const(node.value) is value)
-    flag, flags = None, []
-    if pre:
-        s_ = g.node_ast(pre[0])
-        child, p_ = s_, parent(s_)
-        while p_ is not None and p_ is not rs:
-            if isinstance(p_, ast.If):
-                for a, pol in _conjuncts(p_.test, True if child in p_.body else False):
-                    if isinstance(a, ast.Name) and rs_defs.get(a.id) is not None and all(isinstance(const(x), bool) for x in rs_defs[a.id]):
-                        flags.append((a.id, not pol))          # the value that SKIPS the pre-solve phase
-            child, p_ = p_, parent(p_)
-        # several boolean locals may guard the call (first_step ...): the flag is the one the re-solve path sets
-        good = [f for f in flags if st and flag_sets(*f) and g.can_reach_avoiding(st[0], [head], flag_sets(*f), drop_back=False) is None]
-        flag = (good or flags or [None])[0]
-    if flag is None:
-        # the pre-solve call is not where it used to be: fall back on the protocol of such a flag -- a boolean local that some test reads,
-        # that every re-solve path sets to one value and that the accepting path (no change) sets to the other value
-        no_change = g.succ_on(T, not T_pol)
-        for v in sorted(k for k, d_ in rs_defs.items() if d_ is not None and all(isinstance(const(x), bool) for x in d_)):
-            for val in (True, False):
-                if st and flag_sets(v, val) and g.can_reach_avoiding(st[0], [head], flag_sets(v, val), drop_back=False) is None and no_change and \
-                        any(x in g.reachable(no_change[0], g.view(drop_back=True)) for x in flag_sets(v, not val)):
-                    flag = (v, val)
-    if flag is None:
-        raise AnchorError("run_sim: the flag guarding the pre-solve phase not found")
-    res_true = flag_sets(flag[0], flag[1])
-    for nm, via in (("update_model_for_controls", umc), ("trial += 1", tinc), ("resolve = True", res_true)):
-        w = g.can_reach_avoiding(st[0], [head], via, drop_back=False) if st else None
-        chk.expect(w is None and bool(via), "R-C05-1", "the re-solve path passes `%s` before solving again" % nm, loc(rs, g.node_ast(T)), found=g.path_text(w) if w else None)
-    ref = [a for a in T_call.args[:1]] + [k.value for k in T_call.keywords if k.arg == "ref_point"]
-    recv = T_call.func.value if isinstance(T_call.func, ast.Attribute) else None
-    chk.expect(len(ref) == 1 and const(ref[0]) == "graph" and recv is not None and unparse(recv) == "self._change_tracker", "R-C05-1",
-               "the change test asks the change tracker for changes since the last solve (reference point 'graph')", loc(rs, g.node_ast(T)), found=unparse(T_call))
-    w = g.can_reach_avoiding(solves[0], post, store, drop_back=True)
-    chk.expect(w is None, "R-C05-1", "post-solve controls are evaluated on the solution stored in the network", loc(rs), found=g.path_text(w) if w else None)
-    w = g.can_reach_avoiding(store[0], [T_eval], post, drop_back=True)
-    w2 = g.can_reach_avoiding(T_eval, post, [T], drop_back=True) if T_eval != T else None
-    chk.expect(w is None and w2 is None, "R-C05-1", "the change test follows the post-solve controls", loc(rs), found=g.path_text(w or w2) if (w or w2) else None)
-    # the 'graph' reference point is reset when the graph is updated (so that T means: changed since the last solve)
-    uig = repo.func(CORE, "WNTRSimulator._update_internal_graph")
-    resets = []
-    for o in _live(_sx().run(uig)):
-        resets.append(any(cal.endswith(".reset_reference_point") and cal.startswith("self._change_tracker") and ("'graph'" in a or kw.get("key") == "'graph'")
-                          for cal, a, kw, lp, i in _call_events(o) if lp is None))
-    chk.expect(bool(resets) and all(resets), "R-C05-1", "_update_internal_graph consumes and resets the 'graph' reference point", loc(uig))
-    w = g.can_reach_avoiding(st[0], [head], g.calling("_update_internal_graph"), drop_back=False) if st else None
-    chk.expect(w is None, "R-C05-1", "the re-solve path resets the reference point (via _update_internal_graph) before solving again", loc(rs), found=g.path_text(w) if w else None)
-    ps = repo.func(CORE, "WNTRSimulator._run_postsolve_controls")
-    chk.fn(ps)
-    okps = []
-    for o in _live(_sx().run(ps)):
-        lv, ls = _loop_vars(o), _loop_sources(ps, o)
-        hit = False
-        for cal, a, kw, lp, i in _call_events(o):
-            if cal.endswith(".run_control_action") and lp is not None and lp in lv and "self._postsolve_controls.check()" in ls[lp][0]:
-                tv = lv[lp]
-                recv_ = cal[:-len(".run_control_action")]
-                if ls[lp][1]:
-                    hit = hit or (len(tv) == 1 and recv_ == tv[0])          # the loop runs over the controls themselves
-                else:
-                    hit = hit or (len(tv) >= 2 and recv_ == tv[0]) or (len(tv) == 1 and recv_ == tv[0] + "[0]")
-        okps.append(hit)
-    chk.expect(bool(okps) and all(okps) and _loops_run_to_the_end(ps), "R-C05-1", "_run_postsolve_controls runs every post-solve control whose condition holds", loc(ps))
-    chk.floor("R-C05-1", 14)
+        # the flag that suppresses the pre-solve phase (next time step + pre-solve controls) of the next iteration: the local whose truth
+        # value guards the pre-solve call; on the re-solve path it must be given the value that skips that phase
+        pre = g.calling("_compute_next_timestep_and_run_presolve_controls_and_rules")
+        def flag_sets(name, value):
+            return g.nodes_where(lambda node, d: isinstance(node, ast.Assign) and any(isinstance(t_, ast.Name) and t_.id == name for t_ in node.targets)
+                                 and isinstance(const(node.value), bool) and const(node.value) is value)
+        flag, flags = None, []
+        if pre:
+            s_ = g.node_ast(pre[0])
+            child, p_ = s_, parent(s_)
+            while p_ is not None and p_ is not rs:
+                if isinstance(p_, ast.If):
+                    for a, pol in _conjuncts(p_.test, True if child in p_.body else False):
+                        if isinstance(a, ast.Name) and rs_defs.get(a.id) is not None and all(isinstance(const(x), bool) for x in rs_defs[a.id]):
+                            flags.append((a.id, not pol))          # the value that SKIPS the pre-solve phase
+                child, p_ = p_, parent(p_)
+            # several boolean locals may guard the call (first_step ...): the flag is the one the re-solve path sets
+            good = [f for f in flags if st and flag_sets(*f) and g.can_reach_avoiding(st[0], [head], flag_sets(*f), drop_back=False) is None]
+            flag = (good or flags or [None])[0]
+        if flag is None:
+            # the pre-solve call is not where it used to be: fall back on the protocol of such a flag -- a boolean local that some test reads,
+            # that every re-solve path sets to one value and that the accepting path (no change) sets to the other value
+            no_change = g.succ_on(T, not T_pol)
+            for v in sorted(k for k, d_ in rs_defs.items() if d_ is not None and all(isinstance(const(x), bool) for x in d_)):
+                for val in (True, False):
+                    if st and flag_sets(v, val) and g.can_reach_avoiding(st[0], [head], flag_sets(v, val), drop_back=False) is None and no_change and \
+                            any(x in g.reachable(no_change[0], g.view(drop_back=True)) for x in flag_sets(v, not val)):
+                        flag = (v, val)
+        if flag is None:
+            raise AnchorError("run_sim: the flag guarding the pre-solve phase not found")
+        res_true = flag_sets(flag[0], flag[1])
+        for nm, via in (("update_model_for_controls", umc), ("trial += 1", tinc), ("resolve = True", res_true)):
+            w = g.can_reach_avoiding(st[0], [head], via, drop_back=False) if st else None
+            chk.expect(w is None and bool(via), "R-C05-1", "the re-solve path passes `%s` before solving again" % nm, loc(rs, g.node_ast(T)), found=g.path_text(w) if w else None)
+        ref = [a for a in T_call.args[:1]] + [k.value for k in T_call.keywords if k.arg == "ref_point"]
+        recv = T_call.func.value if isinstance(T_call.func, ast.Attribute) else None
+        chk.expect(len(ref) == 1 and const(ref[0]) == "graph" and recv is not None and unparse(recv) == "self._change_tracker", "R-C05-1",
+                   "the change test asks the change tracker for changes since the last solve (reference point 'graph')", loc(rs, g.node_ast(T)), found=unparse(T_call))
+        w = g.can_reach_avoiding(solves[0], post, store, drop_back=True)
+        chk.expect(w is None, "R-C05-1", "post-solve controls are evaluated on the solution stored in the network", loc(rs), found=g.path_text(w) if w else None)
+        w = g.can_reach_avoiding(store[0], [T_eval], post, drop_back=True)
+        w2 = g.can_reach_avoiding(T_eval, post, [T], drop_back=True) if T_eval != T else None
+        chk.expect(w is None and w2 is None, "R-C05-1", "the change test follows the post-solve controls", loc(rs), found=g.path_text(w or w2) if (w or w2) else None)
+        # the 'graph' reference point is reset when the graph is updated (so that T means: changed since the last solve)
+        uig = repo.func(CORE, "WNTRSimulator._update_internal_graph")
+        resets = []
+        for o in _live(_sx().run(uig)):
+            resets.append(any(cal.endswith(".reset_reference_point") and cal.startswith("self._change_tracker") and ("'graph'" in a or kw.get("key") == "'graph'")
+                              for cal, a, kw, lp, i in _call_events(o) if lp is None))
+        chk.expect(bool(resets) and all(resets), "R-C05-1", "_update_internal_graph consumes and resets the 'graph' reference point", loc(uig))
+        w = g.can_reach_avoiding(st[0], [head], g.calling("_update_internal_graph"), drop_back=False) if st else None
+        chk.expect(w is None, "R-C05-1", "the re-solve path resets the reference point (via _update_internal_graph) before solving again", loc(rs), found=g.path_text(w) if w else None)
+        ps = repo.func(CORE, "WNTRSimulator._run_postsolve_controls")
+        chk.fn(ps)
+        okps = []
+        for o in _live(_sx().run(ps)):
+            lv, ls = _loop_vars(o), _loop_sources(ps, o)
+            hit = False
+            for cal, a, kw, lp, i in _call_events(o):
+                if cal.endswith(".run_control_action") and lp is not None and lp in lv and "self._postsolve_controls.check()" in ls[lp][0]:
+                    tv = lv[lp]
+                    recv_ = cal[:-len(".run_control_action")]
+                    if ls[lp][1]:
+                        hit = hit or (len(tv) == 1 and recv_ == tv[0])          # the loop runs over the controls themselves
+                    else:
+                        hit = hit or (len(tv) >= 2 and recv_ == tv[0]) or (len(tv) == 1 and recv_ == tv[0] + "[0]")
+            okps.append(hit)
+        chk.expect(bool(okps) and all(okps) and _loops_run_to_the_end(ps), "R-C05-1", "_run_postsolve_controls runs every post-solve control whose condition holds", loc(ps))
+        chk.floor("R-C05-1", 14)
 
     # ---------------------------------------------------------------- R-C05-2 action plumbing
-    cai = repo.func(CTRL, "ControlAction.__init__")
-    chk.fn(cai)
-    mapping = {}
-    for attr in ("status", "setting", "leak_status", "base_speed", "elevation"):
-        make, _log = _concrete(repo, CTRL, lambda name, n, ev: True if name == "hasattr" else NotImplemented)
-        me = Obj("self", {}, cls="ControlAction")
-        ev = make({"self": me, "target_obj": Obj("t", {}), "attribute": attr, "value": 1}, owner="ControlAction")
-        body = [s for s in cai.body if not (isinstance(s, ast.Expr) and isinstance(s.value, ast.Call) and "super" in unparse(s.value))]
-        r = _run_concrete("ControlAction.__init__", lambda: ev.run(body))
-        mapping[attr] = _nm(me.attrs.get("_private_attribute")) if not (isinstance(r, tuple) and r and r[0] == "raises") else r
-    want = {"status": "_user_status", "setting": "_setting", "leak_status": "_leak_status"}
-    for k, v in want.items():
-        chk.expect(mapping.get(k) == v, "R-C05-2", "ControlAction(%s) writes the run-time field %s" % (k, v), loc(cai),
-                   "a control must act on the field that the status property / constraint builders read, never on the definition (initial_*) fields", expected=v, found=mapping.get(k))
-    chk.sample({"rule": "R-C05-2", "ControlAction private attribute map": mapping})
+    with chk.part("R-C05-2 action plumbing"):
+        cai = repo.func(CTRL, "ControlAction.__init__")
+        chk.fn(cai)
+        mapping = {}
+        for attr in ("status", "setting", "leak_status", "base_speed", "elevation"):
+            make, _log = _concrete(repo, CTRL, lambda name, n, ev: True if name == "hasattr" else NotImplemented)
+            me = Obj("self", {}, cls="ControlAction")
+            ev = make({"self": me, "target_obj": Obj("t", {}), "attribute": attr, "value": 1}, owner="ControlAction")
+            body = [s for s in cai.body if not (isinstance(s, ast.Expr) and isinstance(s.value, ast.Call) and "super" in unparse(s.value))]
+            r = _run_concrete("ControlAction.__init__", lambda: ev.run(body))
+            mapping[attr] = _nm(me.attrs.get("_private_attribute")) if not (isinstance(r, tuple) and r and r[0] == "raises") else r
+        want = {"status": "_user_status", "setting": "_setting", "leak_status": "_leak_status"}
+        for k, v in want.items():
+            chk.expect(mapping.get(k) == v, "R-C05-2", "ControlAction(%s) writes the run-time field %s" % (k, v), loc(cai),
+                       "a control must act on the field that the status property / constraint builders read, never on the definition (initial_*) fields", expected=v, found=mapping.get(k))
+        chk.sample({"rule": "R-C05-2", "ControlAction private attribute map": mapping})
 
-    def returns(fn):
-        outs = _live(_sx().run(fn))
-        return sorted({_t(o.ret) for o in outs})
+        def returns(fn):
+            outs = _live(_sx().run(fn))
+            return sorted({_t(o.ret) for o in outs})
 
-    # running an action, by evaluation on a link with two subscribed observers: when the observers are told, the run-time field already
-    # holds the commanded value, nothing else on the link was touched, and every observer is told once
-    rca = repo.func(CTRL, "ControlAction.run_control_action")
-    okr, found = _action_run_facts(repo, "ControlAction", {"_attribute": "status", "_private_attribute": "_user_status"}, "_user_status")
-    chk.expect(okr, "R-C05-2", "ControlAction.run_control_action = setattr(target, private attribute, value) then notify()", loc(rca), found=found)
-    tg = repo.func(CTRL, "ControlAction.target")
-    okr, found = _action_target_facts(repo, "ControlAction", {"_attribute": "status", "_private_attribute": "_user_status"})
-    chk.expect(okr, "R-C05-2", "ControlAction.target() reports the PUBLIC attribute", loc(tg), found=found)
-    ica = repo.func(CTRL, "_InternalControlAction.run_control_action")
-    okr, found = _action_run_facts(repo, "_InternalControlAction", {"_internal_attr": "_internal_status", "_property_attr": "status"}, "_internal_status")
-    chk.expect(okr, "R-C05-2", "_InternalControlAction writes the internal attribute and notifies", loc(ica), found=found)
-    itg = repo.func(CTRL, "_InternalControlAction.target")
-    okr, found = _action_target_facts(repo, "_InternalControlAction", {"_internal_attr": "_internal_status", "_property_attr": "status"})
-    chk.expect(okr, "R-C05-2", "_InternalControlAction.target() reports the public property to compare", loc(itg), found=found)
+        # running an action, by evaluation on a link with two subscribed observers: when the observers are told, the run-time field already
+        # holds the commanded value, nothing else on the link was touched, and every observer is told once
+        rca = repo.func(CTRL, "ControlAction.run_control_action")
+        okr, found = _action_run_facts(repo, "ControlAction", {"_attribute": "status", "_private_attribute": "_user_status"}, "_user_status")
+        chk.expect(okr, "R-C05-2", "ControlAction.run_control_action = setattr(target, private attribute, value) then notify()", loc(rca), found=found)
+        tg = repo.func(CTRL, "ControlAction.target")
+        okr, found = _action_target_facts(repo, "ControlAction", {"_attribute": "status", "_private_attribute": "_user_status"})
+        chk.expect(okr, "R-C05-2", "ControlAction.target() reports the PUBLIC attribute", loc(tg), found=found)
+        ica = repo.func(CTRL, "_InternalControlAction.run_control_action")
+        okr, found = _action_run_facts(repo, "_InternalControlAction", {"_internal_attr": "_internal_status", "_property_attr": "status"}, "_internal_status")
+        chk.expect(okr, "R-C05-2", "_InternalControlAction writes the internal attribute and notifies", loc(ica), found=found)
+        itg = repo.func(CTRL, "_InternalControlAction.target")
+        okr, found = _action_target_facts(repo, "_InternalControlAction", {"_internal_attr": "_internal_status", "_property_attr": "status"})
+        chk.expect(okr, "R-C05-2", "_InternalControlAction.target() reports the public property to compare", loc(itg), found=found)
 
-    # the change tracker: for every reference point, target in `changed` <=> current public value differs from the value at the reference point
-    upf = repo.func(CTRL, "ControlChangeTracker.update")
-    okt, seen = _tracker_update_facts(repo, upf)
-    chk.expect(okt, "R-C05-2", "the change tracker compares the current PUBLIC value with the value at the reference point (a change back is not a change)", loc(upf), found=seen)
-    notify = repo.func(CTRL, "Subject.notify")
-    told = []
-    subj = Obj("the subject", {"_observers": [Obj("o%d" % i, {"update": (lambda sub, i=i: told.append(("o%d" % i, _nm(sub))))}) for i in (1, 2, 3)]}, cls="Subject")
-    make, _log = _concrete(repo, CTRL)
-    _run_concrete("Subject.notify", lambda: make({notify.args.args[0].arg: subj}, owner="Subject").run(notify.body))
-    chk.expect(told == [("o%d" % i, "the subject") for i in (1, 2, 3)], "R-C05-2", "notify() informs every subscribed observer", loc(notify), found=told)
+        # the change tracker: for every reference point, target in `changed` <=> current public value differs from the value at the reference point
+        upf = repo.func(CTRL, "ControlChangeTracker.update")
+        okt, seen = _tracker_update_facts(repo, upf)
+        chk.expect(okt, "R-C05-2", "the change tracker compares the current PUBLIC value with the value at the reference point (a change back is not a change)", loc(upf), found=seen)
+        notify = repo.func(CTRL, "Subject.notify")
+        told = []
+        subj = Obj("the subject", {"_observers": [Obj("o%d" % i, {"update": (lambda sub, i=i: told.append(("o%d" % i, _nm(sub))))}) for i in (1, 2, 3)]}, cls="Subject")
+        make, _log = _concrete(repo, CTRL)
+        _run_concrete("Subject.notify", lambda: make({notify.args.args[0].arg: subj}, owner="Subject").run(notify.body))
+        chk.expect(told == [("o%d" % i, "the subject") for i in (1, 2, 3)], "R-C05-2", "notify() informs every subscribed observer", loc(notify), found=told)
 
-    # a control is due when its condition evaluates true; running it runs the then-actions
-    icar = repo.func(CTRL, "Rule.is_control_action_required")
-    okd, due = _control_due_facts(repo, icar)
-    chk.expect(okd, "R-C05-2", "a control is due exactly when its condition evaluates true", loc(icar), found=due)
-    rrca = repo.func(CTRL, "Rule.run_control_action")
-    ran = []
-    acts = {k: [Obj(k + str(i), {"run_control_action": (lambda k=k, i=i: ran.append(k + str(i)))}, cls="ControlAction") for i in (1, 2)] for k in ("then", "else")}
-    me = Obj("the control", {"_which": "then", "_then_actions": acts["then"], "_else_actions": acts["else"]}, cls="Rule")
-    make, _log = _concrete(repo, CTRL)
-    r = _run_concrete("Rule.run_control_action", lambda: make({rrca.args.args[0].arg: me}, owner="Rule").run(rrca.body))
-    chk.expect(ran == ["then1", "then2"], "R-C05-2", "running a control runs its then-actions", loc(rrca), found=r if isinstance(r, tuple) else ran)
-    chk.floor("R-C05-2", 11)
+        # a control is due when its condition evaluates true; running it runs the then-actions
+        icar = repo.func(CTRL, "Rule.is_control_action_required")
+        okd, due = _control_due_facts(repo, icar)
+        chk.expect(okd, "R-C05-2", "a control is due exactly when its condition evaluates true", loc(icar), found=due)
+        rrca = repo.func(CTRL, "Rule.run_control_action")
+        ran = []
+        acts = {k: [Obj(k + str(i), {"run_control_action": (lambda k=k, i=i: ran.append(k + str(i)))}, cls="ControlAction") for i in (1, 2)] for k in ("then", "else")}
+        me = Obj("the control", {"_which": "then", "_then_actions": acts["then"], "_else_actions": acts["else"]}, cls="Rule")
+        make, _log = _concrete(repo, CTRL)
+        r = _run_concrete("Rule.run_control_action", lambda: make({rrca.args.args[0].arg: me}, owner="Rule").run(rrca.body))
+        chk.expect(ran == ["then1", "then2"], "R-C05-2", "running a control runs its then-actions", loc(rrca), found=r if isinstance(r, tuple) else ran)
+        chk.floor("R-C05-2", 11)
 
     # ---------------------------------------------------------------- R-C05-3 conditions
-    ve = repo.func(CTRL, "ValueCondition.evaluate")
-    chk.fn(ve)
-    okv, rets = _value_condition_facts(repo, ve)
-    chk.expect(okv, "R-C05-3", "ValueCondition.evaluate applies the stored relation to (current attribute value, threshold)", loc(ve), found=rets)
-    # Comparison members carry the matching numpy function
-    cmp_cls = repo.cls(CTRL, "Comparison")
-    tbl = {}
-    for n in cmp_cls.body:
-        if isinstance(n, ast.Assign) and isinstance(n.value, ast.Tuple) and len(n.value.elts) == 2:
-            tbl[n.targets[0].id] = unparse(n.value.elts[1])
-    wantc = {"gt": "np.greater", "ge": "np.greater_equal", "lt": "np.less", "le": "np.less_equal", "eq": "np.equal", "ne": "np.not_equal"}
-    chk.expect(tbl == wantc, "R-C05-3", "Comparison members carry the matching comparison function", loc(CTRL, cmp_cls), expected=wantc, found=tbl)
-    pf = repo.func(CTRL, "Comparison.parse")
+    with chk.part("R-C05-3 conditions"):
+        ve = repo.func(CTRL, "ValueCondition.evaluate")
+        chk.fn(ve)
+        okv, rets = _value_condition_facts(repo, ve)
+        chk.expect(okv, "R-C05-3", "ValueCondition.evaluate applies the stored relation to (current attribute value, threshold)", loc(ve), found=rets)
+        # Comparison members carry the matching numpy function
+        cmp_cls = repo.cls(CTRL, "Comparison")
+        tbl = {}
+        for n in cmp_cls.body:
+            if isinstance(n, ast.Assign) and isinstance(n.value, ast.Tuple) and len(n.value.elts) == 2:
+                tbl[n.targets[0].id] = unparse(n.value.elts[1])
+        wantc = {"gt": "np.greater", "ge": "np.greater_equal", "lt": "np.less", "le": "np.less_equal", "eq": "np.equal", "ne": "np.not_equal"}
+        chk.expect(tbl == wantc, "R-C05-3", "Comparison members carry the matching comparison function", loc(CTRL, cmp_cls), expected=wantc, found=tbl)
+        pf = repo.func(CTRL, "Comparison.parse")
 
-    def parse(x):
-        make, _log = _concrete(repo, CTRL)
-        ev = make({"cls": _Opq("cls"), "func": x}, owner="Comparison")
-        return _nm(_run_concrete("Comparison.parse", lambda: ev.run(pf.body)))
-    wantp = {"np.equal": "cls.eq", "np.not_equal": "cls.ne", "np.greater": "cls.gt", "np.less": "cls.lt", "np.greater_equal": "cls.ge", "np.less_equal": "cls.le"}
-    pairs = {k: parse(Obj(k, {}, cls="numpy.ufunc")) for k in wantp}
-    chk.expect(all(pairs.get(k) == v for k, v in wantp.items()), "R-C05-3", "Comparison.parse maps each function / keyword list to its own member", loc(pf), expected=wantp, found=pairs)
-    # keyword lists: above/after -> gt ; below/before -> lt
-    for kw, member in (("'above'", "cls.gt"), ("'below'", "cls.lt"), ("'>='", "cls.ge"), ("'<='", "cls.le")):
-        got = parse(kw.strip("'"))
-        chk.expect(got == member, "R-C05-3", "Comparison.parse: keyword %s means %s" % (kw, member), loc(pf), found=got)
+        def parse(x):
+            make, _log = _concrete(repo, CTRL)
+            ev = make({"cls": _Opq("cls"), "func": x}, owner="Comparison")
+            return _nm(_run_concrete("Comparison.parse", lambda: ev.run(pf.body)))
+        wantp = {"np.equal": "cls.eq", "np.not_equal": "cls.ne", "np.greater": "cls.gt", "np.less": "cls.lt", "np.greater_equal": "cls.ge", "np.less_equal": "cls.le"}
+        pairs = {k: parse(Obj(k, {}, cls="numpy.ufunc")) for k in wantp}
+        chk.expect(all(pairs.get(k) == v for k, v in wantp.items()), "R-C05-3", "Comparison.parse maps each function / keyword list to its own member", loc(pf), expected=wantp, found=pairs)
+        # keyword lists: above/after -> gt ; below/before -> lt
+        for kw, member in (("'above'", "cls.gt"), ("'below'", "cls.lt"), ("'>='", "cls.ge"), ("'<='", "cls.le")):
+            got = parse(kw.strip("'"))
+            chk.expect(got == member, "R-C05-3", "Comparison.parse: keyword %s means %s" % (kw, member), loc(pf), found=got)
 
-    rcl = repo.func(IO, "_read_control_line")
-    chk.fn(rcl)
-    opmap, attrs = {}, []
-    for word in ("ABOVE", "BELOW"):
-        for ntype, cls_ in (("Junction", "Junction"), ("Tank", "Tank")):
-            got = _read_conditional_control(repo, rcl, word, ntype)
-            opmap.setdefault(word, set()).add(got["oper"])
-            attrs.append((got["source"], got["attr"]))
-    opmap = {k: (sorted(v)[0] if len(v) == 1 else sorted(v)) for k, v in opmap.items()}
-    chk.expect(opmap == {"ABOVE": "np.greater", "BELOW": "np.less"}, "R-C05-3", "INP simple controls: ABOVE = greater than, BELOW = less than", loc(rcl), found=opmap)
-    attrs = sorted(set(attrs))
-    chk.expect(attrs == [("node", "level"), ("node", "pressure")], "R-C05-3", "INP simple controls compare junction pressure / tank level of the named node", loc(rcl), found=attrs)
-    ccf = repo.func(CTRL, "Control._conditional_control")
-    okc, seen = _conditional_control_facts(repo, ccf)
-    chk.expect(okc, "R-C05-3", "Control._conditional_control builds ValueCondition(obj, attr, operation, threshold) with the given action", loc(ccf), found=seen)
-    vn = repo.func(CTRL, "ValueCondition.__new__")
-    newtab = {}
-    for scls in ("Tank", "Junction", "Reservoir"):
-        for sattr in ("level", "pressure", "head", "demand"):
-            make, _log = _concrete(repo, CTRL, lambda name, n, ev: (Obj("instance", {}, cls=_nm(ev.ev(n.args[0]))) if name == "object.__new__" and len(n.args) == 1 else NotImplemented))
-            ev = make({"cls": _Opq("ValueCondition"), "source_obj": Obj("src", {}, cls=scls), "source_attr": sattr, "relation": _Opq("rel"), "threshold": 1.0}, owner="ValueCondition")
-            r = _run_concrete("ValueCondition.__new__", lambda: ev.run(vn.body))
-            newtab[(scls, sattr)] = r.cls if isinstance(r, Obj) else _nm(r)
-    wantn = {k: ("TankLevelCondition" if k[0] == "Tank" and k[1] in ("level", "pressure", "head") else "ValueCondition") for k in newtab}
-    chk.expect(newtab == wantn, "R-C05-3", "a ValueCondition on a tank's level/pressure/head is a TankLevelCondition (partial steps)", loc(vn),
-               found={"%s.%s" % k: v for k, v in newtab.items() if wantn[k] != v})
-    chk.floor("R-C05-3", 10)
+        rcl = repo.func(IO, "_read_control_line")
+        chk.fn(rcl)
+        opmap, attrs = {}, []
+        for word in ("ABOVE", "BELOW"):
+            for ntype, cls_ in (("Junction", "Junction"), ("Tank", "Tank")):
+                got = _read_conditional_control(repo, rcl, word, ntype)
+                opmap.setdefault(word, set()).add(got["oper"])
+                attrs.append((got["source"], got["attr"]))
+        opmap = {k: (sorted(v)[0] if len(v) == 1 else sorted(v)) for k, v in opmap.items()}
+        chk.expect(opmap == {"ABOVE": "np.greater", "BELOW": "np.less"}, "R-C05-3", "INP simple controls: ABOVE = greater than, BELOW = less than", loc(rcl), found=opmap)
+        attrs = sorted(set(attrs))
+        chk.expect(attrs == [("node", "level"), ("node", "pressure")], "R-C05-3", "INP simple controls compare junction pressure / tank level of the named node", loc(rcl), found=attrs)
+        ccf = repo.func(CTRL, "Control._conditional_control")
+        okc, seen = _conditional_control_facts(repo, ccf)
+        chk.expect(okc, "R-C05-3", "Control._conditional_control builds ValueCondition(obj, attr, operation, threshold) with the given action", loc(ccf), found=seen)
+        vn = repo.func(CTRL, "ValueCondition.__new__")
+        newtab = {}
+        for scls in ("Tank", "Junction", "Reservoir"):
+            for sattr in ("level", "pressure", "head", "demand"):
+                make, _log = _concrete(repo, CTRL, lambda name, n, ev: (Obj("instance", {}, cls=_nm(ev.ev(n.args[0]))) if name == "object.__new__" and len(n.args) == 1 else NotImplemented))
+                ev = make({"cls": _Opq("ValueCondition"), "source_obj": Obj("src", {}, cls=scls), "source_attr": sattr, "relation": _Opq("rel"), "threshold": 1.0}, owner="ValueCondition")
+                r = _run_concrete("ValueCondition.__new__", lambda: ev.run(vn.body))
+                newtab[(scls, sattr)] = r.cls if isinstance(r, Obj) else _nm(r)
+        wantn = {k: ("TankLevelCondition" if k[0] == "Tank" and k[1] in ("level", "pressure", "head") else "ValueCondition") for k in newtab}
+        chk.expect(newtab == wantn, "R-C05-3", "a ValueCondition on a tank's level/pressure/head is a TankLevelCondition (partial steps)", loc(vn),
+                   found={"%s.%s" % k: v for k, v in newtab.items() if wantn[k] != v})
+        chk.floor("R-C05-3", 10)
 
     # ---------------------------------------------------------------- R-C05-5 the solve phase of a simple control follows its CURRENT condition
-    ctl_cls = repo.cls(CTRL, "Control")
-    rule_cls = repo.cls(CTRL, "Rule")
-    own = {n.name: n for n in ctl_cls.body if isinstance(n, ast.FunctionDef)}
-    inherited = {n.name: n for n in rule_cls.body if isinstance(n, ast.FunctionDef)}
-    setters = []
-    for nm, fn in list(inherited.items()) + list(own.items()):
-        if any(isinstance(a, ast.Attribute) and isinstance(a.ctx, ast.Store) and a.attr == "_condition" and unparse(a.value) == "self" for a in walk(fn)):
-            setters.append(nm)
-    cond_classes = ["TankLevelCondition", "TimeOfDayCondition", "SimTimeCondition", "ValueCondition", "RelativeCondition", "OrCondition", "AndCondition", "FunctionCondition"]
-    want_type = {"TankLevelCondition": "_ControlType.pre_and_postsolve", "TimeOfDayCondition": "_ControlType.presolve", "SimTimeCondition": "_ControlType.presolve"}
+    with chk.part("R-C05-5 the solve phase of a simple control follows its CURRENT condition"):
+        ctl_cls = repo.cls(CTRL, "Control")
+        rule_cls = repo.cls(CTRL, "Rule")
+        own = {n.name: n for n in ctl_cls.body if isinstance(n, ast.FunctionDef)}
+        inherited = {n.name: n for n in rule_cls.body if isinstance(n, ast.FunctionDef)}
+        setters = []
+        for nm, fn in list(inherited.items()) + list(own.items()):
+            if any(isinstance(a, ast.Attribute) and isinstance(a.ctx, ast.Store) and a.attr == "_condition" and unparse(a.value) == "self" for a in walk(fn)):
+                setters.append(nm)
+        cond_classes = ["TankLevelCondition", "TimeOfDayCondition", "SimTimeCondition", "ValueCondition", "RelativeCondition", "OrCondition", "AndCondition", "FunctionCondition"]
+        want_type = {"TankLevelCondition": "_ControlType.pre_and_postsolve", "TimeOfDayCondition": "_ControlType.presolve", "SimTimeCondition": "_ControlType.presolve"}
 
-    def control_type_after(meth, fn, ccls):
-        """_control_type of a Control object after Control.<meth>(condition of class ccls), starting from a stale type"""
-        make, _log = _concrete(repo, CTRL, lambda name, n, ev: (None if name.startswith("logger.") or name.startswith("warnings.") else NotImplemented))
-        me = Obj("self", {"_control_type": _Opq("<type of the previous condition>"), "_condition": Obj("old", {}, cls="ValueCondition")}, cls="Control")
-        cond = Obj("condition", {"_relation": _Opq("Comparison.gt")}, cls=ccls)
-        env = {"self": me}
-        params = [a.arg for a in fn.args.args][1:]
-        if not params:
-            raise ExtractError("Control.%s takes no condition" % meth)
-        for p, d in zip(params[len(params) - len(fn.args.defaults):], fn.args.defaults):
-            env[p] = _Opq(unparse(d))
-        env[params[0]] = cond
-        for p in params[1:]:
-            env.setdefault(p, _Opq(p))
-        body = fn.body
-        if meth == "__init__":
-            # the base-class constructor (conditions, actions, priority, name) does not decide the control type of a Control: what counts is
-            # what Control.__init__ leaves in _control_type
-            body = [s for s in body if not (isinstance(s, ast.Expr) and isinstance(s.value, ast.Call) and isinstance(s.value.func, ast.Attribute)
-                                            and s.value.func.attr == "__init__" and "super" in unparse(s.value.func.value))]
-        ev = make(env, owner="Control" if meth in own else "Rule")
-        _run_concrete("Control.%s" % meth, lambda: ev.run(body))
-        return _nm(me.attrs.get("_control_type")), _nm(me.attrs.get("_condition"))
-    for nm in sorted(set(setters)):
-        if nm == "__init__":
-            continue
-        eff = own.get(nm) or inherited.get(nm)        # the method a Control object actually runs
-        got = {c: control_type_after(nm, eff, c) for c in ("TankLevelCondition", "SimTimeCondition", "ValueCondition")}
-        okm = all(got[c][0] == want_type.get(c, "_ControlType.postsolve") and got[c][1] == "condition" for c in got)
-        chk.expect(okm, "R-C05-5", "Control.%s re-derives the control type when it replaces the condition" % nm, loc(CTRL, eff),
-                   "the simulator files a control under pre-solve / post-solve by _control_type, fixed from the first condition: a control whose condition was replaced by a "
-                   "tank-level condition is never checked before the solve and overshoots its threshold by a whole step", expected="self._control_type = f(condition)",
-                   found=("inherited from Rule without touching _control_type: " if nm not in own else "") + str({c: v[0] for c, v in got.items()}))
-    ci_ = own.get("__init__")
-    if ci_ is None:
-        raise AnchorError("Control.__init__ vanished")
-    table = {c: control_type_after("__init__", ci_, c)[0] for c in cond_classes}
-    wantt = {c: want_type.get(c, "_ControlType.postsolve") for c in cond_classes}
-    chk.expect(table == wantt, "R-C05-5", "tank-level conditions are pre-and-post-solve, time conditions pre-solve, everything else post-solve", loc(CTRL, ci_),
-               expected=wantt, found=table)
-    chk.floor("R-C05-5", 2)
+        def control_type_after(meth, fn, ccls):
+            """_control_type of a Control object after Control.<meth>(condition of class ccls), starting from a stale type"""
+            make, _log = _concrete(repo, CTRL, lambda name, n, ev: (None if name.startswith("logger.") or name.startswith("warnings.") else NotImplemented))
+            me = Obj("self", {"_control_type": _Opq("<type of the previous condition>"), "_condition": Obj("old", {}, cls="ValueCondition")}, cls="Control")
+            cond = Obj("condition", {"_relation": _Opq("Comparison.gt")}, cls=ccls)
+            env = {"self": me}
+            params = [a.arg for a in fn.args.args][1:]
+            if not params:
+                raise ExtractError("Control.%s takes no condition" % meth)
+            for p, d in zip(params[len(params) - len(fn.args.defaults):], fn.args.defaults):
+                env[p] = _Opq(unparse(d))
+            env[params[0]] = cond
+            for p in params[1:]:
+                env.setdefault(p, _Opq(p))
+            body = fn.body
+            if meth == "__init__":
+                # the base-class constructor (conditions, actions, priority, name) does not decide the control type of a Control: what counts is
+                # what Control.__init__ leaves in _control_type
+                body = [s for s in body if not (isinstance(s, ast.Expr) and isinstance(s.value, ast.Call) and isinstance(s.value.func, ast.Attribute)
+                                                and s.value.func.attr == "__init__" and "super" in unparse(s.value.func.value))]
+            ev = make(env, owner="Control" if meth in own else "Rule")
+            _run_concrete("Control.%s" % meth, lambda: ev.run(body))
+            return _nm(me.attrs.get("_control_type")), _nm(me.attrs.get("_condition"))
+        for nm in sorted(set(setters)):
+            if nm == "__init__":
+                continue
+            eff = own.get(nm) or inherited.get(nm)        # the method a Control object actually runs
+            got = {c: control_type_after(nm, eff, c) for c in ("TankLevelCondition", "SimTimeCondition", "ValueCondition")}
+            okm = all(got[c][0] == want_type.get(c, "_ControlType.postsolve") and got[c][1] == "condition" for c in got)
+            chk.expect(okm, "R-C05-5", "Control.%s re-derives the control type when it replaces the condition" % nm, loc(CTRL, eff),
+                       "the simulator files a control under pre-solve / post-solve by _control_type, fixed from the first condition: a control whose condition was replaced by a "
+                       "tank-level condition is never checked before the solve and overshoots its threshold by a whole step", expected="self._control_type = f(condition)",
+                       found=("inherited from Rule without touching _control_type: " if nm not in own else "") + str({c: v[0] for c, v in got.items()}))
+        ci_ = own.get("__init__")
+        if ci_ is None:
+            raise AnchorError("Control.__init__ vanished")
+        table = {c: control_type_after("__init__", ci_, c)[0] for c in cond_classes}
+        wantt = {c: want_type.get(c, "_ControlType.postsolve") for c in cond_classes}
+        chk.expect(table == wantt, "R-C05-5", "tank-level conditions are pre-and-post-solve, time conditions pre-solve, everything else post-solve", loc(CTRL, ci_),
+                   expected=wantt, found=table)
+        chk.floor("R-C05-5", 2)
 
     # ---------------------------------------------------------------- R-C05-9 every control is filed under the managers of its type and observed by the tracker
-    manager_rules(repo, chk)
+    with chk.part("R-C05-9 every control is filed under the managers of its type and observed by the tracker"):
+        manager_rules(repo, chk)
 
     # ---------------------------------------------------------------- R-C05-8 companion status controls of setting / speed controls
-    companion_rules(repo, chk)
-    chk.floor("R-C05-8", 30)
+    with chk.part("R-C05-8 companion status controls of setting / speed controls"):
+        companion_rules(repo, chk)
+        chk.floor("R-C05-8", 30)
 
     # ---------------------------------------------------------------- R-C05-6 the partial step of a tank-level condition does not depend on who asked first
-    tle = repo.func(CTRL, "TankLevelCondition.evaluate")
-    chk.fn(tle)
-    def by_definitions():
-        """fallback when the method cannot be evaluated: the same fact read off the definitions (def-use)"""
-        tdefs = _name_defs(tle)
-        # the threshold-crossing guard: the tests under which a non-zero partial step is stored; among their forced atoms the NEGATED
-        # two-argument call is `not relation(<value at the last accepted step>, threshold)`
-        guards = []
-        for n in walk(tle):
-            if isinstance(n, ast.Assign) and any(isinstance(t_, ast.Attribute) and t_.attr == "_backtrack" and unparse(t_.value) == "self" for t_ in n.targets) \
-                    and const(n.value, "?") != 0:
-                child, p_ = n, parent(n)
-                while p_ is not None and p_ is not tle:
-                    if isinstance(p_, ast.If):
-                        for a, pol in _conjuncts(_expand(tle, p_.test, _defs=tdefs), child in p_.body):
-                            if not pol and isinstance(a, ast.Call) and len(a.args) == 2:
-                                guards.append((a, p_))
-                    child, p_ = p_, parent(p_)
-        if not guards:
-            raise ExtractError("TankLevelCondition.evaluate: threshold-crossing test not found")
-        own_state = {a.attr for a in walk(tle) if isinstance(a, ast.Attribute) and isinstance(a.ctx, ast.Store) and unparse(a.value) == "self"}
+    with chk.part("R-C05-6 the partial step of a tank-level condition does not depend on who asked first"):
+        tle = repo.func(CTRL, "TankLevelCondition.evaluate")
+        chk.fn(tle)
+        def by_definitions():
+            """fallback when the method cannot be evaluated: the same fact read off the definitions (def-use)"""
+            tdefs = _name_defs(tle)
+            # the threshold-crossing guard: the tests under which a non-zero partial step is stored; among their forced atoms the NEGATED
+            # two-argument call is `not relation(<value at the last accepted step>, threshold)`
+            guards = []
+            for n in walk(tle):
+                if isinstance(n, ast.Assign) and any(isinstance(t_, ast.Attribute) and t_.attr == "_backtrack" and unparse(t_.value) == "self" for t_ in n.targets) \
+                        and const(n.value, "?") != 0:
+                    child, p_ = n, parent(n)
+                    while p_ is not None and p_ is not tle:
+                        if isinstance(p_, ast.If):
+                            for a, pol in _conjuncts(_expand(tle, p_.test, _defs=tdefs), child in p_.body):
+                                if not pol and isinstance(a, ast.Call) and len(a.args) == 2:
+                                    guards.append((a, p_))
+                        child, p_ = p_, parent(p_)
+            if not guards:
+                raise ExtractError("TankLevelCondition.evaluate: threshold-crossing test not found")
+            own_state = {a.attr for a in walk(tle) if isinstance(a, ast.Attribute) and isinstance(a.ctx, ast.Store) and unparse(a.value) == "self"}
 
-        def reaches(expr, leaf, seen=()):
-            """does the value derive (through the definitions of the locals it mentions, on some path) from a node satisfying leaf()?"""
-            for x in ast.walk(expr):
-                if leaf(x):
-                    return True
-                if isinstance(x, ast.Name) and x.id not in seen:
-                    for a in walk(tle):
-                        if isinstance(a, ast.Assign) and any(isinstance(t_, ast.Name) and t_.id == x.id for t_ in a.targets) and reaches(a.value, leaf, seen + (x.id,)):
-                            return True
-            return False
+            def reaches(expr, leaf, seen=()):
+                """does the value derive (through the definitions of the locals it mentions, on some path) from a node satisfying leaf()?"""
+                for x in ast.walk(expr):
+                    if leaf(x):
+                        return True
+                    if isinstance(x, ast.Name) and x.id not in seen:
+                        for a in walk(tle):
+                            if isinstance(a, ast.Assign) and any(isinstance(t_, ast.Name) and t_.id == x.id for t_ in a.targets) and reaches(a.value, leaf, seen + (x.id,)):
+                                return True
+                return False
 
-        def tank_leaf(x):
-            return (isinstance(x, ast.Attribute) and x.attr == "_prev_head") or (isinstance(x, ast.Constant) and x.value == "_prev_head")
+            def tank_leaf(x):
+                return (isinstance(x, ast.Attribute) and x.attr == "_prev_head") or (isinstance(x, ast.Constant) and x.value == "_prev_head")
 
-        def memo_leaf(x):
-            return isinstance(x, ast.Attribute) and unparse(x.value) == "self" and x.attr in own_state
-        okp, found = True, []
-        for call_, if_ in guards:
-            prev_expr, _d = _strip_round(call_.args[0])
-            okp = okp and (reaches(prev_expr, tank_leaf) or not reaches(prev_expr, memo_leaf))
-            if unparse(prev_expr) not in found:
-                found.append(unparse(prev_expr))
-        return okp, found, guards[0][1]
-    detail6 = ("evaluate() sets self._last_value on every call: the second control that shares the condition object (the simulator itself pairs every setting control with a "
-               "status control on the SAME condition) sees 'already beyond the threshold' and gets no partial step")
-    what6 = "the 'value at the last accepted step' a tank-level condition compares with comes from the tank, not from a field evaluate() overwrites"
-    try:
-        okp, found = _tank_condition_facts(repo, tle)
-        chk.expect(okp, "R-C05-6", what6, loc(tle), detail6, expected="two evaluations within one step give the same positive partial step", found=found)
-    except Unknown as e:
-        chk.note("R-C05-6 decided on the definitions (evaluation not possible: %s)" % e)
-        okp, found, where = by_definitions()
-        chk.expect(okp, "R-C05-6", what6, loc(tle, where), detail6, expected="derived from tank._prev_head", found=found)
+            def memo_leaf(x):
+                return isinstance(x, ast.Attribute) and unparse(x.value) == "self" and x.attr in own_state
+            okp, found = True, []
+            for call_, if_ in guards:
+                prev_expr, _d = _strip_round(call_.args[0])
+                okp = okp and (reaches(prev_expr, tank_leaf) or not reaches(prev_expr, memo_leaf))
+                if unparse(prev_expr) not in found:
+                    found.append(unparse(prev_expr))
+            return okp, found, guards[0][1]
+        detail6 = ("evaluate() sets self._last_value on every call: the second control that shares the condition object (the simulator itself pairs every setting control with a "
+                   "status control on the SAME condition) sees 'already beyond the threshold' and gets no partial step")
+        what6 = "the 'value at the last accepted step' a tank-level condition compares with comes from the tank, not from a field evaluate() overwrites"
+        try:
+            okp, found = _tank_condition_facts(repo, tle)
+            chk.expect(okp, "R-C05-6", what6, loc(tle), detail6, expected="two evaluations within one step give the same positive partial step", found=found)
+        except Unknown as e:
+            chk.note("R-C05-6 decided on the definitions (evaluation not possible: %s)" % e)
+            okp, found, where = by_definitions()
+            chk.expect(okp, "R-C05-6", what6, loc(tle, where), detail6, expected="derived from tank._prev_head", found=found)
 
     # ---------------------------------------------------------------- R-C05-7 conditions see what is reported
-    # "condition true on the REPORTED state": the pressure a junction condition reads (node.pressure -> _pressure, written by
-    # store_results_in_network) is the pressure save_results reports, on the isolated and on the connected path
-    import sympy as sp
-    sfn = repo.func(HYD, "store_results_in_network")
-    svf = repo.func(HYD, "save_results")
-    chk.fn(sfn, svf)
-    pp = repo.func(BASE, "Node.pressure")
-    chk.expect(returns(pp) == ["self._pressure"], "R-C05-7", "a junction's pressure property returns the stored _pressure", loc(pp))
-    hp = repo.func(BASE, "Node.head")
-    chk.expect(returns(hp) == ["self._head"], "R-C05-7", "a junction's head property returns the stored _head", loc(hp))
+    with chk.part("R-C05-7 conditions see what is reported"):
+        # "condition true on the REPORTED state": the pressure a junction condition reads (node.pressure -> _pressure, written by
+        # store_results_in_network) is the pressure save_results reports, on the isolated and on the connected path
+        import sympy as sp
+        sfn = repo.func(HYD, "store_results_in_network")
+        svf = repo.func(HYD, "save_results")
+        chk.fn(sfn, svf)
+        pp = repo.func(BASE, "Node.pressure")
+        chk.expect(returns(pp) == ["self._pressure"], "R-C05-7", "a junction's pressure property returns the stored _pressure", loc(pp))
+        hp = repo.func(BASE, "Node.head")
+        chk.expect(returns(hp) == ["self._head"], "R-C05-7", "a junction's head property returns the stored _head", loc(hp))
 
-    def junction_var(o, fn):
-        for e in o.events:
-            if e[0] == "loop" and "junctions()" in e[2]:
-                tv = [x.strip() for x in e[1].strip("()").split(",")]
-                return e[2], tv[-1]
-        raise ExtractError("%s: junction loop not found" % fn.name)
-
-    def canon(expr, var):
-        expr = sp.sympify(expr)
-        return expr.subs({s: sp.Symbol("J." + s.name[len(var) + 1:], real=True) for s in expr.free_symbols if s.name.startswith(var + ".")})
-    done = set()
-    for iso in (True, False):
-        which = "isolated" if iso else "connected"
-        ex = _sx(attrs=lambda base, attr, iso=iso: iso if attr == "_is_isolated" else NotImplemented)
-        seen_p = head_v = None
-        vals = set()
-        for o in _live(ex.run(sfn)):
-            ctx, var = junction_var(o, sfn)
-            fin = {}
+        def junction_var(o, fn):
             for e in o.events:
-                if e[0] == "store" and len(e) > 4 and e[4] and e[4][-1] == ctx:
-                    fin[e[1]] = e[2]
-            p_, h_ = fin.get(var + "._pressure"), fin.get(var + "._head")
-            if p_ is None or h_ is None:
-                raise ExtractError("R-C05-7: pressure bookkeeping not extractable for the %s path" % which)
-            try:
-                p_, h_ = canon(ex.S(p_), var), canon(ex.S(h_), var)
-            except ExtractError:
-                raise ExtractError("R-C05-7: stored pressure / head of the %s path is not an arithmetic expression" % which)
-            vals.add((p_, h_))
-        if len(vals) != 1:
-            raise ExtractError("R-C05-7: stored pressure of the %s path is not unique (%d variants)" % (which, len(vals)))
-        seen_p, head_v = list(vals)[0]
-        ex2 = _sx(attrs=lambda base, attr, iso=iso: iso if attr == "_is_isolated" else NotImplemented)
-        reps = set()
-        for o in _live(ex2.run(svf)):
-            ctx, var = junction_var(o, svf)
-            app = [e for e in o.events if e[0] == "call" and e[2][0] == "?.append" and "'pressure'" in e[1][:_matching_open(e[1])] and len(e) > 4 and e[4] and e[4][-1] == ctx]
-            if len(app) != 1:
-                raise ExtractError("R-C05-7: %d reports of the pressure of a %s junction" % (len(app), which))
-            try:
-                reps.add(canon(ex2.S(app[0][2][1][0]), var))
-            except ExtractError:
-                raise ExtractError("R-C05-7: reported pressure expression not recognised: %s" % _t(app[0][2][1][0]))
-        if len(reps) != 1:
-            raise ExtractError("R-C05-7: reported pressure of the %s path is not unique" % which)
-        sub = {sp.Symbol("J._head", real=True): head_v, sp.Symbol("J.head", real=True): head_v}
-        seen_v = sp.simplify(seen_p.subs(sub))
-        rep_v = sp.simplify(list(reps)[0].subs(sub))
-        done.add(which)
-        chk.expect(sp.simplify(seen_v - rep_v) == 0, "R-C05-7", "the pressure a condition reads for a %s junction is the pressure that is reported" % which, loc(sfn),
-                   "save_results reports %s for a %s junction while conditions read node.pressure = %s: a pressure control can be true on the reported state and false "
-                   "inside the simulator" % (rep_v, which, seen_v), expected=str(rep_v), found=str(seen_v))
-    if done != {"isolated", "connected"}:
-        raise ExtractError("R-C05-7: isolated / connected paths of store_results_in_network not both found (%s)" % sorted(done))
+                if e[0] == "loop" and "junctions()" in e[2]:
+                    tv = [x.strip() for x in e[1].strip("()").split(",")]
+                    return e[2], tv[-1]
+            raise ExtractError("%s: junction loop not found" % fn.name)
+
+        def canon(expr, var):
+            expr = sp.sympify(expr)
+            return expr.subs({s: sp.Symbol("J." + s.name[len(var) + 1:], real=True) for s in expr.free_symbols if s.name.startswith(var + ".")})
+        done = set()
+        for iso in (True, False):
+            which = "isolated" if iso else "connected"
+            ex = _sx(attrs=lambda base, attr, iso=iso: iso if attr == "_is_isolated" else NotImplemented)
+            seen_p = head_v = None
+            vals = set()
+            for o in _live(ex.run(sfn)):
+                ctx, var = junction_var(o, sfn)
+                fin = {}
+                for e in o.events:
+                    if e[0] == "store" and len(e) > 4 and e[4] and e[4][-1] == ctx:
+                        fin[e[1]] = e[2]
+                p_, h_ = fin.get(var + "._pressure"), fin.get(var + "._head")
+                if p_ is None or h_ is None:
+                    raise ExtractError("R-C05-7: pressure bookkeeping not extractable for the %s path" % which)
+                try:
+                    p_, h_ = canon(ex.S(p_), var), canon(ex.S(h_), var)
+                except ExtractError:
+                    raise ExtractError("R-C05-7: stored pressure / head of the %s path is not an arithmetic expression" % which)
+                vals.add((p_, h_))
+            if len(vals) != 1:
+                raise ExtractError("R-C05-7: stored pressure of the %s path is not unique (%d variants)" % (which, len(vals)))
+            seen_p, head_v = list(vals)[0]
+            ex2 = _sx(attrs=lambda base, attr, iso=iso: iso if attr == "_is_isolated" else NotImplemented)
+            reps = set()
+            for o in _live(ex2.run(svf)):
+                ctx, var = junction_var(o, svf)
+                app = [e for e in o.events if e[0] == "call" and e[2][0] == "?.append" and "'pressure'" in e[1][:_matching_open(e[1])] and len(e) > 4 and e[4] and e[4][-1] == ctx]
+                if len(app) != 1:
+                    raise ExtractError("R-C05-7: %d reports of the pressure of a %s junction" % (len(app), which))
+                try:
+                    reps.add(canon(ex2.S(app[0][2][1][0]), var))
+                except ExtractError:
+                    raise ExtractError("R-C05-7: reported pressure expression not recognised: %s" % _t(app[0][2][1][0]))
+            if len(reps) != 1:
+                raise ExtractError("R-C05-7: reported pressure of the %s path is not unique" % which)
+            sub = {sp.Symbol("J._head", real=True): head_v, sp.Symbol("J.head", real=True): head_v}
+            seen_v = sp.simplify(seen_p.subs(sub))
+            rep_v = sp.simplify(list(reps)[0].subs(sub))
+            done.add(which)
+            chk.expect(sp.simplify(seen_v - rep_v) == 0, "R-C05-7", "the pressure a condition reads for a %s junction is the pressure that is reported" % which, loc(sfn),
+                       "save_results reports %s for a %s junction while conditions read node.pressure = %s: a pressure control can be true on the reported state and false "
+                       "inside the simulator" % (rep_v, which, seen_v), expected=str(rep_v), found=str(seen_v))
+        if done != {"isolated", "connected"}:
+            raise ExtractError("R-C05-7: isolated / connected paths of store_results_in_network not both found (%s)" % sorted(done))
 
     # ---------------------------------------------------------------- R-C05-4 firing order of triggered controls
-    # tank-level / pressure controls are pre-and-post-solve: among the controls triggered in one step the scheduler must take the one
-    # whose threshold is crossed FIRST (largest partial step) and let priority decide only among equal instants; post-solve lists are
-    # priority ordered (shared implementation with R-C04-3)
-    _firing_order_rules(repo, chk, "R-C05-4")
+    with chk.part("R-C05-4 firing order of triggered controls"):
+        # tank-level / pressure controls are pre-and-post-solve: among the controls triggered in one step the scheduler must take the one
+        # whose threshold is crossed FIRST (largest partial step) and let priority decide only among equal instants; post-solve lists are
+        # priority ordered (shared implementation with R-C04-3)
+        _firing_order_rules(repo, chk, "R-C05-4")
 
 
 # ====================================================================================================================
